@@ -12,7 +12,10 @@
 //!   echo     Lean `ast.echo s` answers exactly `s`
 //!   reverse  `sexp_to_block(s)` = Ok(B2) ⇒ block_to_sexp(B2) == s; Err allowed only for a
 //!            documented `type:` / `generics:` reason on a tree that contains type syntax
+//!   equal    B2 == B by darklua's own derived PartialEq, after normalising in B what the wire
+//!            drops (number spelling, method type instantiation, attribute groups, leading `|`)
 //!   regen    (parsed trees only) DenseLuaGenerator(B2) parses, and its sexp == s
+//!   golden   a hand-written table source → wire text pins the meaning of every operator / head
 //! and on mutated / ill-formed S-expressions: Lean accepts ⇒ Rust accepts with the same
 //! re-encoding or refuses with a documented structural reason; Lean rejects ⇒ Rust rejects.
 use crate::astsexp::{self, Sexp};
@@ -20,6 +23,7 @@ use crate::model::Model;
 use crate::rng::Rng;
 use darklua_core::generator::{DenseLuaGenerator, LuaGenerator};
 use darklua_core::nodes::*;
+use darklua_core::process::{DefaultVisitor, NodeProcessor, NodeVisitor};
 use darklua_core::Parser;
 use std::collections::{BTreeMap, BTreeSet};
 use std::panic::{catch_unwind, AssertUnwindSafe};
@@ -229,8 +233,54 @@ fn collect_corpus(stats: &mut Stats) -> Vec<Case> {
             }
         }
     }
+    for (index, code) in BUILTIN_SNIPPETS.iter().enumerate() {
+        stats.bump("source.builtin.seen");
+        match parse_quiet(code) {
+            Some(block) => {
+                stats.bump("source.builtin.parsed");
+                cases.push(Case { label: format!("builtin#{} `{}`", index, code), block, parsed: true });
+            }
+            None => {
+                stats.bump("source.builtin.rejected-by-parser");
+                eprintln!("note: builtin snippet #{} rejected by darklua's parser: {}", index, code);
+            }
+        }
+    }
     cases
 }
+
+/// hand-written corner cases (literal forms, type syntax the corpus is thin on)
+const BUILTIN_SNIPPETS: &[&str] = &[
+    "return 0x10, 0XfF, 0b1010, 0B11, 1_000, 1e3, 1E-3, .5, 5., 0xFFFFFFFFFFFFFFFF, 1e308, 5e-324",
+    "return 1e999, -1e999",
+    "return -0, -(0), - -1, not not x, #t, -x^2, (-x)^2, 2^3^4, (2^3)^4, a..b..c, (a..b)..c",
+    r#"return 'a\\z', "\x41\u{48}\065\z  \n", [[long
+]], [==[a]]b]==], '\255\0'"#,
+    r#"return `a{b}c{ {1} }`, `{1}`, ``, `\{x}`, `a\n{1}`"#,
+    r#"f'x' f"x" f[[x]] f{} f{1} f() f(...) a.b:c'x' a:b{} (f)() f()() f{}{} f'' ''"#,
+    "obj:method<<number>>(1) obj:method<<typeof(x), T>>'s' local y = f<<number, string>>(1)",
+    "local z = f<<>>()",
+    "a, b.c, d[e], f().g, (h).i = 1, 2 a += 1 b.c -= 1 d[e] *= 2 x /= 1 x //= 1 x %= 1 x ^= 1 x ..= 's'",
+    "const a, b = 1, 2",
+    "const function f() end",
+    "local function f<T, U...>(a: T, ...: U...): (T, U...) return a, ... end",
+    "function a.b.c:d<T>(x: T?, ...: number): ...T end function e(...) end",
+    "local f = @native function() end @checked local function g() end @native @checked function h() end",
+    "type A = Foo<>",
+    "type B = Foo<number, (string, boolean), ...T, U...> type C = ns.Foo<A>",
+    r#"type A<T, U = number, V... = ...string> = { x: T, read y: U, write ["z"]: T, [number]: T }"#,
+    "export type F = <T, R...>(a: T, b: number, ...T) -> (R...) type G = (x: number) -> () type H = () -> ...number",
+    "type U = | A | B type V = & A & B",
+    r#"type W = (A | B)? type X = A? | B type Y = typeof(f(1).x) type Z = 'lit' | "lit" | true | false | nil"#,
+    "type T = { number } type T2 = {} type T3 = { { [string]: { x: number } } }",
+    "export type function f(a, b: number, ...) return a end type function g<T>(x: T): T return x end",
+    "local x = a :: number local y = (a :: any) :: string local z = if a then b elseif c then d elseif e then f else g",
+    "for i = 1, 2 do end for i: number = 1, 2, 3 do break end for k: string, v in pairs(t), nil do continue end",
+    "repeat local x = 1 until x while true do if a then break elseif b then continue else return end end",
+    "do end do do end end if a then elseif b then else end return",
+    r#"local t = { 1, a = 2, [3] = 4, ["k"] = 5; f(), ..., }"#,
+    "return function(...: T...) end, function<T>(a: T, b): () end",
+];
 
 // ---------------------------------------------------------------------------------------------
 // random programs: every node kind reachable
@@ -281,6 +331,11 @@ impl Gen {
             5 => HexNumber::new(self.rng.next_u64() >> self.rng.below(64), self.rng.chance(1, 2)).into(),
             6 => BinaryNumber::new(self.rng.next_u64() >> self.rng.below(64), self.rng.chance(1, 2)).into(),
             7 => DecimalNumber::new(12500.0).with_exponent(2, self.rng.chance(1, 2)).into(),
+            // hex literals with a binary exponent exist only through the constructor (the parser
+            // refuses `0x1p4`); 2^exponent * integer may overflow u64
+            9 if self.weird => HexNumber::new(self.rng.next_u64() >> self.rng.below(64), false)
+                .with_exponent(self.rng.below(70) as u32, self.rng.chance(1, 2))
+                .into(),
             8 if self.weird => DecimalNumber::new(*self.rng.pick(&[-1.5, -0.0, f64::INFINITY, f64::NEG_INFINITY, f64::NAN])).into(),
             _ => DecimalNumber::new(0.1).into(),
         }
@@ -343,7 +398,8 @@ impl Gen {
         let mut attributes = Attributes::new();
         if self.rng.chance(1, 4) {
             attributes.append_attribute(NamedAttribute::new(*self.rng.pick(&["native", "checked", "deprecated"])));
-            if self.rng.chance(1, 3) {
+            // darklua's parser (full-moon) does not read `@[…]` groups: raw-only
+            if self.weird && self.rng.chance(1, 2) {
                 attributes.append_attribute(
                     AttributeGroup::new(AttributeGroupElement::new("native"))
                         .with_attribute(AttributeGroupElement::new("checked")),
@@ -713,6 +769,12 @@ impl Gen {
 // checks
 // ---------------------------------------------------------------------------------------------
 
+const KNOWN_HEADS: &[&str] = &[
+    "num", "str", "var", "paren", "un", "bin", "call", "field", "index", "fn", "table", "pos", "named", "keyed", "ifx",
+    "interp", "s", "v", "cast", "inst", "fnbody", "n", "ty", "typeof", "assign", "cassign", "callstmt", "do", "function",
+    "gfor", "nfor", "if", "local", "localfn", "repeat", "while", "typedecl", "typefn", "block", "return",
+];
+
 fn count_nodes(tree: &Sexp, kinds: &mut BTreeMap<String, u64>) {
     match tree {
         Sexp::Atom(atom) => {
@@ -723,7 +785,7 @@ fn count_nodes(tree: &Sexp, kinds: &mut BTreeMap<String, u64>) {
             }
         }
         Sexp::List(items) => {
-            if let Some(head) = tree.head().filter(|head| !head.starts_with('x')) {
+            if let Some(head) = tree.head().filter(|head| KNOWN_HEADS.contains(head)) {
                 let key = if head == "ty" {
                     let tag = items.get(1).and_then(Sexp::atom).and_then(astsexp::unhex_name).unwrap_or_default();
                     format!("ty:{}", tag.split(':').next().unwrap_or(""))
@@ -823,6 +885,25 @@ fn check_cases(cases: &[Case], model: &mut Model, stats: &mut Stats, verbose: bo
                     stats.mismatch(format!("{}: sexp→block→sexp differs {}", case.label, first_difference(sexp, &again)));
                     continue;
                 }
+                // independent of the codec's own forward direction: darklua's derived PartialEq
+                // between the original tree (normalised for what the wire drops) and the rebuilt one
+                let mut normalised = case.block.clone();
+                let mut normaliser = Normalise::default();
+                DefaultVisitor::visit_block(&mut normalised, &mut normaliser);
+                if normalised == rebuilt {
+                    stats.bump("rebuilt == original (darklua PartialEq, after normalising dropped details)");
+                } else if format!("{:?}", normalised) == format!("{:?}", rebuilt) {
+                    // f64 NaN literals (constructor-built trees only) are never == themselves
+                    stats.bump("rebuilt == original by Debug text only (NaN literal inside)");
+                } else {
+                    let (left, right) = (format!("{:?}", normalised), format!("{:?}", rebuilt));
+                    stats.mismatch(format!("{}: rebuilt block != original block: {}", case.label, first_difference(&left, &right)));
+                }
+                for (what, count) in [("dropped.method-type-instantiation", normaliser.method_types), ("dropped.attribute-group", normaliser.attribute_groups)] {
+                    if count > 0 {
+                        *stats.counts.entry(what.to_owned()).or_default() += count;
+                    }
+                }
                 if !case.parsed {
                     continue;
                 }
@@ -843,6 +924,7 @@ fn check_cases(cases: &[Case], model: &mut Model, stats: &mut Stats, verbose: bo
                             // darklua's own parse→generate→parse changes this tree (e.g. the generator
                             // parenthesises a function type inside `?`/`&`/`|`): not the codec's doing
                             stats.bump("regen.skipped (darklua generate→parse already changes the original tree)");
+                            eprintln!("note: darklua's own generate→parse changes {}", case.label.chars().take(160).collect::<String>());
                             if baseline.as_deref() != Some(final_sexp.as_str()) {
                                 stats.mismatch(format!("{}: rebuilt and original regenerate to different trees", case.label));
                             }
@@ -854,6 +936,109 @@ fn check_cases(cases: &[Case], model: &mut Model, stats: &mut Stats, verbose: bo
                     }
                 }
             }
+        }
+    }
+}
+
+/// What the wire format drops, applied to a darklua tree: number spelling (base, exponent),
+/// method type instantiation, attribute grouping / arguments, leading `|` / `&`.
+#[derive(Default)]
+struct Normalise {
+    method_types: u64,
+    attribute_groups: u64,
+}
+
+impl NodeProcessor for Normalise {
+    fn process_number_expression(&mut self, number: &mut NumberExpression) {
+        *number = DecimalNumber::new(astsexp::number_value(number)).into();
+    }
+    fn process_function_call(&mut self, call: &mut FunctionCall) {
+        if call.remove_type_instantiation_from_method() {
+            self.method_types += 1;
+        }
+    }
+    fn process_attributes(&mut self, attributes: &mut Attributes) {
+        let mut flat = Attributes::new();
+        for attribute in attributes.iter_attributes() {
+            match attribute {
+                Attribute::Name(named) => flat.append_attribute(NamedAttribute::new(named.get_identifier().get_name().as_str())),
+                Attribute::Group(group) => {
+                    self.attribute_groups += 1;
+                    for element in group.iter_attributes() {
+                        flat.append_attribute(NamedAttribute::new(element.name().get_name().as_str()));
+                    }
+                }
+            }
+        }
+        *attributes = flat;
+    }
+    fn process_union_type(&mut self, union: &mut UnionType) {
+        *union = UnionType::from(union.iter_types().cloned().collect::<Vec<_>>());
+    }
+    fn process_intersection_type(&mut self, intersection: &mut IntersectionType) {
+        *intersection = IntersectionType::from(intersection.iter_types().cloned().collect::<Vec<_>>());
+    }
+}
+
+/// (Lua source, expected wire text) written by hand from BUILDING-AST.md: pins the meaning of
+/// the atoms (a forward and a reverse direction that agree on a wrong name would otherwise pass).
+/// Names: a=x61 b=x62 c=x63 f=x66 m=x6d t=x74 x=x78 T=x54; 1 = f3ff0000000000000, 2 = f4000000000000000
+const GOLDEN: &[(&str, &str)] = &[
+    ("return nil, true, false, ...", "(block () (return nil true false vararg))"),
+    ("return 1, 2, 0.5, 0x10", "(block () (return (num f3ff0000000000000) (num f4000000000000000) (num f3fe0000000000000) (num f4030000000000000)))"),
+    ("return 'ab', \"\\65\"", "(block () (return (str x6162) (str x41)))"),
+    ("return a and b, a or b", "(block () (return (bin and (var x61) (var x62)) (bin or (var x61) (var x62))))"),
+    ("return a == b, a ~= b", "(block () (return (bin eq (var x61) (var x62)) (bin ne (var x61) (var x62))))"),
+    ("return a < b, a <= b", "(block () (return (bin lt (var x61) (var x62)) (bin le (var x61) (var x62))))"),
+    ("return a > b, a >= b", "(block () (return (bin gt (var x61) (var x62)) (bin ge (var x61) (var x62))))"),
+    ("return a + b, a - b", "(block () (return (bin add (var x61) (var x62)) (bin sub (var x61) (var x62))))"),
+    ("return a * b, a / b", "(block () (return (bin mul (var x61) (var x62)) (bin div (var x61) (var x62))))"),
+    ("return a // b, a % b", "(block () (return (bin idiv (var x61) (var x62)) (bin mod (var x61) (var x62))))"),
+    ("return a ^ b, a .. b", "(block () (return (bin pow (var x61) (var x62)) (bin concat (var x61) (var x62))))"),
+    ("return a - b - c, a ^ b ^ c", "(block () (return (bin sub (bin sub (var x61) (var x62)) (var x63)) (bin pow (var x61) (bin pow (var x62) (var x63)))))"),
+    ("return -a, not a, #a, (a)", "(block () (return (un neg (var x61)) (un not (var x61)) (un len (var x61)) (paren (var x61))))"),
+    ("f(a, b) a:m() f'ab' f{a}", "(block ((callstmt (call (var x66) - t (var x61) (var x62))) (callstmt (call (var x61) x6d t)) (callstmt (call (var x66) - s (str x6162))) (callstmt (call (var x66) - b (table (pos (var x61)))))))"),
+    ("return a.b, a[b], a.b.c", "(block () (return (field (var x61) x62) (index (var x61) (var x62)) (field (field (var x61) x62) x63)))"),
+    ("return {a, b = c, [a] = b}", "(block () (return (table (pos (var x61)) (named x62 (var x63)) (keyed (var x61) (var x62)))))"),
+    ("return if a then b elseif c then a else x", "(block () (return (ifx (var x61) (var x62) (((var x63) (var x61))) (var x78))))"),
+    ("return `ab{a}c`", "(block () (return (interp (s x6162) (v (var x61)) (s x63))))"),
+    ("return a :: T, f<<T>>", "(block () (return (cast (var x61) (ty x6e616d653a54)) (inst (var x66) (ty x6e616d653a54))))"),
+    ("return function(a, ...) end", "(block () (return (fn (fnbody ((n x61 -)) true - - () () (block ())))))"),
+    ("return function<T>(a: T): T end", "(block () (return (fn (fnbody ((n x61 (ty x6e616d653a54))) false - (ty x6e616d653a54) (x54) () (block ())))))"),
+    ("a, b.c = 1, 2", "(block ((assign ((var x61) (field (var x62) x63)) ((num f3ff0000000000000) (num f4000000000000000)))))"),
+    ("a += 1 a -= 1 a *= 1 a /= 1", "(block ((cassign add (var x61) (num f3ff0000000000000)) (cassign sub (var x61) (num f3ff0000000000000)) (cassign mul (var x61) (num f3ff0000000000000)) (cassign div (var x61) (num f3ff0000000000000))))"),
+    ("a //= 1 a %= 1 a ^= 1 a ..= 1", "(block ((cassign idiv (var x61) (num f3ff0000000000000)) (cassign mod (var x61) (num f3ff0000000000000)) (cassign pow (var x61) (num f3ff0000000000000)) (cassign concat (var x61) (num f3ff0000000000000))))"),
+    ("do break end", "(block ((do (block () break))))"),
+    ("function a.b:m() continue end", "(block ((function (x61 x62) x6d (fnbody () false - - () () (block () continue)))))"),
+    ("function f() end", "(block ((function (x66) - (fnbody () false - - () () (block ())))))"),
+    ("@native function f() end", "(block ((function (x66) - (fnbody () false - - () (x6e6174697665) (block ())))))"),
+    ("for a, b in x do end", "(block ((gfor ((n x61 -) (n x62 -)) ((var x78)) (block ()))))"),
+    ("for a = 1, 2 do end for a = 1, 2, 1 do end", "(block ((nfor (n x61 -) (num f3ff0000000000000) (num f4000000000000000) - (block ())) (nfor (n x61 -) (num f3ff0000000000000) (num f4000000000000000) (num f3ff0000000000000) (block ()))))"),
+    ("if a then elseif b then end if a then else end", "(block ((if (((var x61) (block ())) ((var x62) (block ()))) -) (if (((var x61) (block ()))) (block ()))))"),
+    ("local a, b = 1 local c", "(block ((local local ((n x61 -) (n x62 -)) ((num f3ff0000000000000))) (local local ((n x63 -)) ())))"),
+    ("const a = 1", "(block ((local const ((n x61 -)) ((num f3ff0000000000000)))))"),
+    ("local function f() end", "(block ((localfn local x66 (fnbody () false - - () () (block ())))))"),
+    ("repeat until a while a do end", "(block ((repeat (block ()) (var x61)) (while (var x61) (block ()))))"),
+    ("type T = a export type T = typeof(a)", "(block ((typedecl false x54 (ty x6e616d653a61)) (typedecl true x54 (typeof (var x61)))))"),
+    ("type function f() end", "(block ((typefn false x66 (fnbody () false - - () () (block ())))))"),
+    ("return", "(block () (return))"),
+    ("", "(block ())"),
+];
+
+fn check_golden(model: &mut Model, stats: &mut Stats) {
+    for (code, expected) in GOLDEN {
+        stats.bump("golden");
+        match parse_quiet(code) {
+            None => stats.mismatch(format!("golden: darklua's parser rejects `{}`", code)),
+            Some(block) => {
+                let sexp = astsexp::block_to_sexp(&block);
+                if sexp != *expected {
+                    stats.mismatch(format!("golden `{}`: {}", code, first_difference(expected, &sexp)));
+                }
+            }
+        }
+        if model.ask(&format!("ast.echo {}", expected)) != *expected {
+            stats.mismatch(format!("golden `{}`: the Lean reader does not echo the expected text", code));
         }
     }
 }
@@ -1023,7 +1208,9 @@ fn run_checks(seed: u64, random: usize, verbose: bool) -> i32 {
     let mut model = Model::spawn();
     let mut cases = collect_corpus(&mut stats);
 
-    let mut gen = Gen { rng: Rng::new(seed), weird: false };
+    // Rng::new maps consecutive seeds to the same SplitMix64 sequence shifted by one draw:
+    // scramble once so that different seeds give unrelated streams
+    let mut gen = Gen { rng: Rng(Rng::new(seed).next_u64()), weird: false };
     let mut unparsable_samples = Vec::new();
     for index in 0..random {
         gen.weird = index % 5 == 4;
@@ -1038,8 +1225,13 @@ fn run_checks(seed: u64, random: usize, verbose: bool) -> i32 {
                 }
                 None => {
                     stats.bump("random.generated.rejected-by-parser");
+                    let code = generate(&block).unwrap_or_default();
+                    if verbose {
+                        let error = Parser::default().parse(&code).err().map(|e| e.to_string()).unwrap_or_default();
+                        eprintln!("REJECTED {}\n  code: {}", error.chars().take(300).collect::<String>(), code.replace('\n', " "));
+                    }
                     if unparsable_samples.len() < 3 {
-                        unparsable_samples.push(generate(&block).unwrap_or_default());
+                        unparsable_samples.push(code);
                     }
                 }
             }
@@ -1050,6 +1242,7 @@ fn run_checks(seed: u64, random: usize, verbose: bool) -> i32 {
     for chunk in cases.chunks(200) {
         check_cases(chunk, &mut model, &mut stats, verbose);
     }
+    check_golden(&mut model, &mut stats);
     gen.weird = false;
     check_expressions(&mut gen, random, &mut model, &mut stats);
     let mut rng = gen.rng.fork();
